@@ -40,6 +40,8 @@ type Server struct {
 	// until the blob is mounted (POST ?mount=) or uploaded there
 	OtherRepo map[string]bool
 
+	// AfterResponse: OnNetPoint is also called when a request has been answered, before the caller sees the answer
+	AfterResponse bool
 	// DashDigests: a lenient registry that also serves a blob asked for as sha256-<hex>
 	DashDigests bool
 	// Down: the registry answers every request with 503 (an outage that lasts as long as the harness says)
@@ -195,6 +197,15 @@ func parseRange(h string, size int) (int, int, bool) {
 
 // RoundTrip implements http.RoundTripper.
 func (s *Server) RoundTrip(req *http.Request) (*http.Response, error) {
+	resp, err := s.roundTrip(req)
+	if s.AfterResponse && s.OnNetPoint != nil && !s.NoFaultsLeft {
+		// the request has been answered; the caller has not looked at the answer yet
+		s.OnNetPoint("the answer to " + req.Method + " " + req.URL.Host + req.URL.Path + " is looked at")
+	}
+	return resp, err
+}
+
+func (s *Server) roundTrip(req *http.Request) (*http.Response, error) {
 	label := req.Method + " " + req.URL.Host + req.URL.Path
 	if req.URL.RawQuery != "" {
 		label += "?" + req.URL.RawQuery
